@@ -11,7 +11,16 @@ Structure of the result:
 * `C11_refine_*`     the structure *with any cursor parked anywhere in it* refines the abstract
                      list-with-gaps machine `Spec`: sequence, every cursor, every `next()`;
 * `C11_terminates`, `C11_only_members`, `C11_getitem_len_contains`, `C11_tombstone_*`;
-* `C11_spec_*`       the English clauses, proved on the abstract machine (pure list facts).
+* `C11_spec_*`       the English clauses, proved on the abstract machine (pure list facts);
+* `C11_rec_*`, `C11_trav_*`  the recursive iterator: the coarse model (all attributes of a node read at
+                     once) and the fine one (lazy reads, attribute edits).  Round 4: the acyclicity
+                     predicates are complete (`C11_*_acyclic_complete`, `C11_rec_static_complete`); the
+                     two models agree while attributes are not edited (`C11_trav_refines_rec*`,
+                     `C11_trav_rec_same_spec`); under tree shape every node of the nest is yielded
+                     exactly once (`C11_trav_nodup`) and, with edits of node sequences, nothing outside
+                     the touched part is yielded twice (`C11_trav_untouched_once`,
+                     `C11_trav_never_twice`); the public methods of `node.attributes` are sequences of
+                     the two primitive edits (`C11_trav_meth_reduces`, `C11_trav_meth_history`).
 
 How the English clauses reach the pointer structure.  `C11_refine_step` is an *equation*: for every
 operation (any arguments: present / absent / repeated values, the anchor itself, several elements)
@@ -33,6 +42,11 @@ import IrVerif.Lemmas.LinkedSetTree
 import IrVerif.Lemmas.TraversalRun
 import IrVerif.Lemmas.LinkedSetSlice
 import IrVerif.Lemmas.TraversalLocal
+import IrVerif.Lemmas.LinkedSetCycle
+import IrVerif.Lemmas.TraversalRefine
+import IrVerif.Lemmas.TraversalTree
+import IrVerif.Lemmas.TraversalMeth
+import IrVerif.Lemmas.TraversalUntouched
 namespace IrVerif.LinkedSet
 
 /-! ### representation invariant -/
@@ -853,6 +867,225 @@ theorem C11_trav_detached_runs_to_end {v0 : Nat} {w w' : TWorld} (h : AgreeOff v
   rw [h.sets, tPrefixSpec_local h d _ below top hown hno] at this
   exact this
 
+/-! ### the acyclicity predicates are complete
+
+`C11_rec_acyclic_ranked` / `C11_rec_static_ranked` / `C11_trav_remaining` use the decidable predicates
+as *sufficient* conditions.  They are also necessary: a predicate is false exactly when some graph is
+nested in itself (`Nested kids g g`: `g` is entered, through one or more levels, from one of its own
+nodes).  Pigeonhole: an unstable height means a nesting chain with more links than there are graphs
+that have subgraphs at all (Lemmas/LinkedSetCycle.lean). -/
+
+/-- **C11_rec_acyclic_complete**: `RWorld.acyclic` is false iff a graph is nested in itself through
+present members. -/
+theorem C11_rec_acyclic_complete (w : RWorld) (d : Dir) :
+    w.acyclic d = false ↔ ∃ g, Nested (w.kids d) g g :=
+  stable_iff_no_cycle (w.kids d) w.sets.length (List.range w.sets.length) (rkids_covered w d) (by simp)
+
+/-- **C11_rec_static_complete**: the same for the static nesting (home graphs). -/
+theorem C11_rec_static_complete (w : RWorld) (d : Dir) (home : Nat → Nat) :
+    w.acyclicStatic d home = false ↔ ∃ g, Nested (w.skids d home) g g :=
+  stable_iff_no_cycle (w.skids d home) w.attrs.length (w.attrs.map (fun (p : Nat × List Attr) => home p.1))
+    (skids_covered w d home) (by simp)
+
+/-- **C11_trav_acyclic_complete**: the same for the world with editable attributes. -/
+theorem C11_trav_acyclic_complete (w : TWorld) (d : Dir) :
+    w.acyclic d = false ↔ ∃ g, Nested (w.kids d) g g := by
+  refine stable_iff_no_cycle (w.kids d) w.sets.length (List.range w.sets.length) ?_ (by simp)
+  intro g hne
+  apply List.mem_range.2
+  apply Nat.lt_of_not_le
+  intro hle
+  apply hne
+  simp [TWorld.kids, tsetOf_ge_empty w g hle, toList_empty]
+
+/-! ### the two models of the recursive iterator agree while attributes are not edited
+
+`TFrame.toR` maps a frame of the lazily reading machine to the frame of the machine that reads all
+attributes of a node at once (`pending` = rest of the `GRAPHS` tuple being walked, then the subgraphs
+of the dict entries not reached yet).  Under this map every `next()` and every drain of the fine
+model - with in-step dict iterators, which is what a history without attribute edits maintains, and
+as long as the step bound is not exhausted - is literally the same `next()` / drain of the coarse
+model on `w.toR` with the same step bound: same events, same result, corresponding stacks.  Hence
+every theorem about `recNext` / `recDrain` on `w.toR` (`C11_rec_only_members`, `C11_rec_history`,
+`C11_rec_preorder_acyclic`, ...) is a theorem about `tNext` / `tDrain` on such histories, and the
+hypotheses and specifications coincide (`C11_trav_rec_same_spec`). -/
+
+/-- **C11_trav_refines_rec_next** -/
+theorem C11_trav_refines_rec_next (w : TWorld) (d : Dir) (f : Nat) (st : List TFrame)
+    (hs : ∀ fr ∈ st, fr.synced w = true) (hf : (tNext w d f st).2.2 ≠ .fuel) :
+    (∀ fr ∈ (tNext w d f st).1, fr.synced w = true) ∧
+    recNext w.toR d f (st.map (TFrame.toR w d)) =
+      ((tNext w d f st).1.map (TFrame.toR w d), (tNext w d f st).2.1, (tNext w d f st).2.2) :=
+  tNext_refines w d f st hs hf
+
+/-- **C11_trav_refines_rec_drain** -/
+theorem C11_trav_refines_rec_drain (w : TWorld) (d : Dir) (f : Nat) (st : List TFrame)
+    (hs : ∀ fr ∈ st, fr.synced w = true) (hf : (tDrain w d f st).2 ≠ .fuel) :
+    recDrain w.toR d f (st.map (TFrame.toR w d)) = tDrain w d f st :=
+  tDrain_refines w d f st hs hf
+
+/-- **C11_trav_refines_rec**: along every history of `next()` calls and edits of node sequences (no
+attribute edits), from any state whose dict iterators are in step (e.g. a fresh iterator), the
+answers of all `next()` calls - events and result - are those of the coarse model run on the
+corresponding history, provided no call exhausts the step bound. -/
+theorem C11_trav_refines_rec (d : Dir) (fuel : Nat) (es : List TEv) (w : TWorld) (st : List TFrame)
+    (hn : ∀ e ∈ es, e.noAttr = true) (hs : ∀ fr ∈ st, fr.synced w = true)
+    (hf : ∀ a ∈ tRunHist d fuel w st es, a.2 ≠ .fuel) :
+    recRunHist d fuel w.toR (st.map (TFrame.toR w d)) (es.filterMap TEv.toREv) = tRunHist d fuel w st es :=
+  trav_refines_rec d fuel es w st hn hs hf
+
+/-- **C11_trav_rec_same_spec**: the hypotheses and the specifications of the two developments
+coincide: same acyclicity predicate, same complete-visit stream, same pre-order stream, and a fresh
+iterator maps to a fresh iterator. -/
+theorem C11_trav_rec_same_spec (w : TWorld) (d : Dir) (k g : Nat) :
+    w.toR.acyclic d = w.acyclic d ∧ specVisit w.toR d k g = tVisit w d k g ∧
+    specTop w.toR d k g = Out.enter g :: tLoop (tVisit w d k) w d g (rest (w.setOf g) d .notStarted) ∧
+    (tStart g).map (TFrame.toR w d) = recStart g := by
+  refine ⟨toR_acyclic w d, toR_specVisit w d k g, ?_, rfl⟩
+  have : specVisit w.toR d k = tVisit w d k := funext (toR_specVisit w d k)
+  simp only [specTop, this, toR_specLoop, RWorld.nodesOf, toR_setOf]
+
+/-! ### under tree shape every node of the nest is yielded exactly once
+
+`TWorld.treeShape w d g0` (a `Bool`, evaluated by the driver): no graph nested in itself, no node a
+member of two graphs, no graph under two attribute positions, the root under none. -/
+
+/-- **C11_trav_nodup**: with no edits, a fresh recursive iterator on the root of a tree-shaped nest
+runs to StopIteration and the nodes it yields are pairwise different and are exactly the present
+members of the graphs of the nest (the root and every graph nested in it, at any depth, through
+nodes on which the `recursive` predicate holds): every node of the nest exactly once. -/
+theorem C11_trav_nodup {w : TWorld} {d : Dir} (hw : TWorldWF w) (g0 : Nat) (ht : w.treeShape d g0 = true) :
+    ∃ outs n, (∀ f, n ≤ f → tDrain w d f (tStart g0) = (outs, .stop)) ∧ (yieldsOf outs).Nodup ∧
+      ∀ v, v ∈ yieldsOf outs ↔ ∃ g, (g = g0 ∨ Nested (w.kids d) g0 g) ∧ v ∈ toList (w.setOf g) := by
+  have ha : w.acyclic d = true := by
+    simp only [TWorld.treeShape, Bool.and_eq_true] at ht
+    exact ht.1.1.1
+  have F := forest_of_treeShape hw g0 ht
+  obtain ⟨n, hn⟩ := C11_trav_preorder hw ha g0
+  refine ⟨_, n, hn, ?_, ?_⟩
+  · rw [yieldsOf_top]
+    exact preord_nodup F _ g0 (oneDepth_root F)
+  · intro v
+    rw [yieldsOf_top]
+    constructor
+    · intro hv
+      obtain ⟨j, _, x, r, hx⟩ := mem_preord F.edge _ g0 v hv
+      refine ⟨x, ?_, (mem_nodesD hw d x v).1 hx⟩
+      cases j with
+      | zero => exact Or.inl r.zero_eq
+      | succ j => exact Or.inr r.nested
+    · rintro ⟨g, hg, hv⟩
+      have hx := (mem_nodesD hw d g v).2 hv
+      rcases hg with rfl | hg
+      · exact preord_mem F.edge _ 0 g g v (by omega) (.zero g) hx
+      · obtain ⟨j, r⟩ := hg.reachN
+        have hb := hgt_reachN hw ha r
+        have := thgt_le w d g0
+        exact preord_mem F.edge _ (j + 1) g0 g v (by omega) r hx
+
+/-! ### the public methods of `node.attributes` are sequences of the two primitive edits
+
+`AMeth` / `AMeth.prims` (Model/Traversal.lean) transcribe `Attributes.__setitem__` / `add` and the
+`UserDict` / `MutableMapping` methods `__delitem__`, `update`, `pop`, `popitem`, `clear`, `setdefault`:
+which primitive writes on `self.data` each performs, in which order, and when it raises. -/
+
+/-- **C11_trav_meth_reduces**: a method call on the attributes of node `v` is a sequence of
+`node.attributes[k] = a` / `del node.attributes[k]` events on `v` (so `C11_trav_history` covers
+histories with method calls, event by event), changes nothing but the attribute dict of `v`
+(`AgreeOff`: so `C11_trav_finished_not_visited` / `C11_trav_detached_runs_to_end` apply to the whole
+call), and has the documented effect on the dict seen as an insertion-ordered mapping
+(`AMeth.effect`: an existing key keeps its place, a new key goes last, `popitem` removes the first
+item, `clear` removes everything, `update` stops at the first value that is not an `Attr`,
+`pop` / `del` / `popitem` raise `KeyError` and `setitem` / `setdefault` `TypeError` exactly when stated). -/
+theorem C11_trav_meth_reduces (w : TWorld) (v : Nat) (m : AMeth) :
+    (w.applyMeth v m).1 = ((m.prims (w.dictOf v)).1.map (APrim.toEv v)).foldl TWorld.applyEv w ∧
+    (∀ e ∈ (m.prims (w.dictOf v)).1.map (APrim.toEv v), ∃ k, (∃ a, e = .setAttr v k a) ∨ e = .delAttr v k) ∧
+    AgreeOff v w (w.applyMeth v m).1 ∧
+    (w.applyMeth v m).1.dictOf v = (m.run (w.dictOf v)).1 ∧
+    (((w.applyMeth v m).1.dictOf v).live, (w.applyMeth v m).2) = m.effect (w.dictOf v).live := by
+  obtain ⟨h1, h2⟩ := foldl_prims_world v (m.prims (w.dictOf v)).1 w
+  refine ⟨rfl, ?_, h2, h1, ?_⟩
+  · intro e he
+    obtain ⟨p, _, rfl⟩ := List.mem_map.1 he
+    cases p with
+    | set k a => exact ⟨k, Or.inl ⟨a, rfl⟩⟩
+    | del k => exact ⟨k, Or.inr rfl⟩
+  · have := meth_effect (w.dictOf v) m
+    rw [← this]
+    exact Prod.ext (congrArg PyDict.live h1) rfl
+
+/-- an event of a history in which `node.attributes` is edited through its public methods -/
+inductive TEvM
+  | ev (e : TEv)
+  | meth (v : Nat) (m : AMeth)
+
+/-- the history of primitive events that a history with method calls is -/
+def expandM : TWorld → List TEvM → List TEv
+  | _, [] => []
+  | w, .ev e :: es => e :: expandM (w.applyEv e) es
+  | w, .meth v m :: es =>
+      (m.prims (w.dictOf v)).1.map (APrim.toEv v) ++ expandM (w.applyMeth v m).1 es
+
+/-- **C11_trav_meth_history**: along every history of `next()` calls, edits of node sequences and
+calls of the public methods of `node.attributes` (any node), every `next()` yields only current
+members and world and stack stay consistent. -/
+theorem C11_trav_meth_history (d : Dir) (fuel : Nat) (es : List TEvM) (w : TWorld) (st : List TFrame)
+    (hw : TWorldWF w) (ok : TStackOK w st) : THistInv d fuel w st (expandM w es) :=
+  C11_trav_history d fuel _ w st hw ok
+
+/-! ### with edits of node sequences: nothing outside the touched part is yielded twice
+
+`tAdm X d fuel w st es` (a `Bool`, Model/Traversal.lean): the history `es` consists of `next()` calls
+(each returning a node or StopIteration within the step bound) and edits of node sequences whose
+touched nodes (inserted / moved / removed) all lie in `X`; in every world passed through no graph is
+nested in itself and `X` is closed under "nested below" (`TWorld.closedB`: a complete visit of the
+subgraphs of a node of `X` yields nodes of `X` only).  `X` = the nodes that were removed, inserted or
+moved, together with everything nested below them. -/
+
+/-- **C11_trav_untouched_once** (the recursive counterpart of `C11_untouched_exactly_once_in_order`):
+along an admissible history, from any consistent state with in-step dict iterators, the nodes
+yielded so far followed by the nodes still to be yielded (`TWorld.fut`, which by
+`C11_trav_remaining` is what the iterator then does), both restricted to the nodes outside `X`, is
+exactly what was to be yielded at the start, restricted in the same way: same nodes, same
+multiplicity, same order. -/
+theorem C11_trav_untouched_once (X : List Nat) (d : Dir) (fuel : Nat) (es : List TEv) (w : TWorld)
+    (st : List TFrame) (hw : TWorldWF w) (ok : TStackOK w st) (hs : ∀ fr ∈ st, fr.synced w = true)
+    (adm : tAdm X d fuel w st es = true) :
+    untouched X ((tRunY d fuel w st es).2.2 ++ (tRunY d fuel w st es).1.fut d (tRunY d fuel w st es).2.1) =
+      untouched X (w.fut d st) :=
+  (trav_untouched X d fuel es w st hw ok hs adm).2.2.2
+
+theorem fut_fresh (w : TWorld) (d : Dir) (g0 : Nat) :
+    w.fut d (tStart g0) = preord (w.nodesD d) (w.subD d) (w.sets.length + 2) g0 := by
+  rw [← yieldsOf_top]
+  simp [TWorld.fut, tStart, tStackSpec, tFrameSpec, TFrame.fresh, tPop]
+
+/-- **C11_trav_never_twice**: a fresh iterator on the root of a tree-shaped nest, any admissible
+history of `next()` calls and edits of node sequences: no node outside `X` is yielded twice - a node
+is yielded twice only if it, or a node it is nested below, was removed and inserted again (or
+moved); and when the iterator has been run to its end, the nodes outside `X` have been yielded
+exactly once each, in the pre-order of the initial nest. -/
+theorem C11_trav_never_twice (X : List Nat) (d : Dir) (fuel : Nat) (es : List TEv) (w : TWorld) (g0 : Nat)
+    (hw : TWorldWF w) (ht : w.treeShape d g0 = true) (adm : tAdm X d fuel w (tStart g0) es = true) :
+    (untouched X (tRunY d fuel w (tStart g0) es).2.2).Nodup ∧
+    ((tRunY d fuel w (tStart g0) es).2.1 = [] →
+      untouched X (tRunY d fuel w (tStart g0) es).2.2 =
+        untouched X (preord (w.nodesD d) (w.subD d) (w.sets.length + 2) g0)) := by
+  have F := forest_of_treeShape hw g0 ht
+  have hnd : (preord (w.nodesD d) (w.subD d) (w.sets.length + 2) g0).Nodup :=
+    preord_nodup F _ g0 (oneDepth_root F)
+  have key := C11_trav_untouched_once X d fuel es w (tStart g0) hw (C11_trav_start hw g0).1
+    (C11_trav_start hw g0).2 adm
+  rw [fut_fresh, untouched_app] at key
+  constructor
+  · have h2 : (untouched X (preord (w.nodesD d) (w.subD d) (w.sets.length + 2) g0)).Nodup :=
+      (List.filter_sublist (l := preord (w.nodesD d) (w.subD d) (w.sets.length + 2) g0)).nodup hnd
+    rw [← key] at h2
+    exact (List.nodup_append.1 h2).1
+  · intro he
+    rw [he] at key
+    simpa [TWorld.fut, tStackSpec, yieldsOf, untouched] using key
+
 /-! ### non-vacuity of the hypotheses, and the corner the spec fixes -/
 
 -- `WF` is inhabited by every reachable state (C11_rep_history); concretely, with a tombstone:
@@ -1000,5 +1233,47 @@ example : (exSt.all fun fr => fr.synced (exT.delAttr 1 0).1) = false ∧
 example : 2 ∈ (exSt.getD 1 (TFrame.fresh 0)).ownNodes exT .fwd ∧ 1 ∈ (exSt.getD 1 (TFrame.fresh 0)).ownNodes exT .fwd ∧
     1 ∉ (exSt.getD 0 (TFrame.fresh 0)).ownNodes exT .fwd ∧
     tPrefixSpec (tVisit exT .fwd 3) exT .fwd (exSt.drop 1) (exSt.take 1) = [.yield 1 12, .exit 1, .exit 1] := by decide
+
+-- completeness of the acyclicity predicate: the self-nested world has a witness, the example worlds have none
+example : Nested (selfWorld.kids .fwd) 0 0 := .one (by decide)
+example : ¬ ∃ g, Nested (exWorld.kids .fwd) g g := by
+  intro h
+  have := (C11_rec_acyclic_complete exWorld .fwd).2 h
+  revert this; decide
+
+-- the two recursive models on the example: hypotheses of C11_trav_refines_rec (no attribute edit, dict
+-- iterators in step, step bound not exhausted) and its conclusion evaluated
+example : (([.next, .edit 0 (.remove 2), .next, .next, .next] : List TEv).all TEv.noAttr) = true ∧
+    ((tStart 0).all fun fr => fr.synced exT) = true ∧
+    ((tRunHist .fwd 60 exT (tStart 0) [.next, .edit 0 (.remove 2), .next, .next, .next]).all fun a => a.2 != .fuel) = true ∧
+    recRunHist .fwd 60 exT.toR ((tStart 0).map (TFrame.toR exT .fwd))
+        (([.next, .edit 0 (.remove 2), .next, .next, .next] : List TEv).filterMap TEv.toREv) =
+      tRunHist .fwd 60 exT (tStart 0) [.next, .edit 0 (.remove 2), .next, .next, .next] := by decide
+
+-- tree shape: true on the example; a subgraph shared by two nodes makes it false and its nodes are yielded twice
+example : exT.treeShape .fwd 0 = true ∧ exT.members = [1, 2, 11, 12] ∧ exT.refs .fwd = [1] := by decide
+
+def sharedT : TWorld := exT.setAttr 2 0 (.graphs [1])
+
+example : sharedT.treeShape .fwd 0 = false ∧ sharedT.acyclic .fwd = true ∧
+    yieldsOf (tDrain sharedT .fwd 80 (tStart 0)).1 = [1, 11, 12, 2, 11, 12] := by decide
+
+-- C11_trav_untouched_once / C11_trav_never_twice: node 1 is yielded, then moved behind the cursor (append): it is
+-- yielded again and graph 1 below it is visited again; X = {1, 11, 12} is closed and contains the touched node;
+-- node 2 (outside X) is yielded once
+example : tAdm [1, 11, 12] .fwd 60 exT (tStart 0)
+      [.next, .edit 0 (.append 1), .next, .next, .next, .next, .next, .next, .next] = true ∧
+    (tRunY .fwd 60 exT (tStart 0)
+      [.next, .edit 0 (.append 1), .next, .next, .next, .next, .next, .next, .next]).2.2 = [1, 11, 12, 2, 1, 11, 12] ∧
+    exT.closedB .fwd [1, 11, 12] = true ∧ exT.closedB .fwd [1] = false := by decide
+
+-- the methods of `node.attributes`: popitem removes the FIRST key, clear empties, update stops at a non-Attr value
+example :
+    (AMeth.run ((PyDict.empty.set 0 (.graph 1)).set 1 .other) .popitem).1.live = [(1, .other)] ∧
+    (AMeth.run ((PyDict.empty.set 0 (.graph 1)).set 1 .other) .clear).1.live = [] ∧
+    AMeth.prims ((PyDict.empty.set 0 (.graph 1)).set 1 .other) .clear = ([.del 0, .del 1], true) ∧
+    AMeth.prims PyDict.empty (.update [(3, some .other), (4, none), (5, some .other)]) = ([.set 3 .other], false) ∧
+    AMeth.prims PyDict.empty (.pop 3 true) = ([], true) ∧ AMeth.prims PyDict.empty (.pop 3 false) = ([], false) ∧
+    AMeth.prims PyDict.empty (.setdefault 3 none) = ([], false) := by decide
 
 end IrVerif.LinkedSet
